@@ -75,6 +75,8 @@ inductive PortPre (L K : Type) where
   /-- the re-referenced network, the column mask, the pruned MNA matrix, the right-hand side
   and the index `i1` of the first port node (possibly swapped) among the kept unknowns -/
   | sys (N' : Net L K) (keep : List Bool) (A : List (List K)) (e : List K) (i1 : Nat)
+  /-- `return np.inf`: one of the two port nodes is isolated (fix aab1640) -/
+  | infinite
 
 /-- node_analysis.py:89-94 on the re-referenced network `N'` for the (possibly swapped) first
 port node `a`: `KeyError` when `a` is not a label, `IndexError ↦ KeyError` when
@@ -92,15 +94,37 @@ def Net.portSys (N' : Net L K) (a : L) : Except Err (PortPre L K) :=
         (countBefore (keepMask N'.mnaA.length N'.mnaA) i))
     else .error .keyError
 
-/-- node_analysis.py:82-88, then `portSys`.  `FloatingGroundNode` comes from re-referencing. -/
+/-- is column `i` of the matrix all zero (`not A[:, i].any()`)? -/
+def colZero (A : List (List K)) (i : Nat) : Bool := A.all fun r => decide (r.getD i 0 = 0)
+
+/-- the inner function `isolated(node, ground)` of fix aab1640: re-reference to `ground`
+(`FloatingGroundNode`), look `node` up in the index map (`KeyError`), test its column of the MNA matrix -/
+def Net.isolated (N : Net L K) (node ground : L) : Except Err Bool :=
+  match N.switchGround ground with
+  | .error e => .error e
+  | .ok Ng =>
+    match idxOf? node Ng.nodes with
+    | none => .error .keyError
+    | some i => .ok (colZero Ng.mnaA i)
+
+/-- node_analysis.py:82-94, then `portSys`: early returns, swap when `node1` is the reference,
+`isolated(node1, node2) or isolated(node2, node1)` ⇒ `np.inf`, re-referencing. -/
 def Net.portPre (N : Net L K) (n1 n2 : L) : Except Err (PortPre L K) :=
   if n1 = n2 then .ok .early
   else if (N.branchesBetween n1 n2).any (·.e.isIdealVS) then .ok .early
   else
     -- `node1, node2 = node2, node1` when `node1` is the reference
-    match N.switchGround (if n1 = N.zero then n1 else n2) with
+    match N.isolated (if n1 = N.zero then n2 else n1) (if n1 = N.zero then n1 else n2) with
     | .error e => .error e
-    | .ok N' => N'.portSys (if n1 = N.zero then n2 else n1)
+    | .ok true => .ok .infinite
+    | .ok false =>
+      match N.isolated (if n1 = N.zero then n1 else n2) (if n1 = N.zero then n2 else n1) with
+      | .error e => .error e
+      | .ok true => .ok .infinite
+      | .ok false =>
+        match N.switchGround (if n1 = N.zero then n1 else n2) with
+        | .error e => .error e
+        | .ok N' => N'.portSys (if n1 = N.zero then n2 else n1)
 
 /-- `open_circuit_impedance(network, node1, node2)`.  `solve A b = none` stands for
 `numpy.linalg.LinAlgError` (singular matrix). -/
@@ -109,6 +133,7 @@ def Net.openCircuitImpedance (solve : List (List K) → List K → Option (List 
   match N.portPre n1 n2 with
   | .error e => .error e
   | .ok .early => .ok 0
+  | .ok .infinite => .error (.other "Infinite")      -- `np.inf`: not an element of the field
   | .ok (.sys _ _ A e i1) =>
     match solve A e with
     | none => .error .singular
@@ -160,12 +185,17 @@ def Net.openCircuitVoltage (solve : List (List K) → List K → Option (List K)
 (`ZeroDivisionError`); otherwise `V` is a numpy scalar and a zero `Z` gives `inf`/`nan`
 without an exception — reported as `NonFinite`. -/
 def Net.shortCircuitCurrent (solve : List (List K) → List K → Option (List K))
-    (N : Net L K) (n1 n2 : L) : Except Err K := do
-  let Z ← N.openCircuitImpedance solve n1 n2
-  let V ← N.openCircuitVoltage solve n1 n2
-  if n1 = n2 then .error .zeroDivision
-  else if Z = 0 then .error (.other "NonFinite")
-  else pure (V / Z)
+    (N : Net L K) (n1 n2 : L) : Except Err K :=
+  match N.openCircuitImpedance solve n1 n2 with
+  | .error (.other "Infinite") => do
+    let _ ← N.openCircuitVoltage solve n1 n2       -- `V / inf`: zero for every finite `V`
+    pure 0
+  | .error e => .error e
+  | .ok Z => do
+    let V ← N.openCircuitVoltage solve n1 n2
+    if n1 = n2 then .error .zeroDivision
+    else if Z = 0 then .error (.other "NonFinite")
+    else pure (V / Z)
 
 /-! ### equivalent_sources.py (the bodies; whether the module imports at all is decided by
 the generated `CC.Gen.PortImports`) -/
@@ -182,7 +212,7 @@ structure NortonEq (K : Type) where
 def Net.theveninEquivalent (solve : List (List K) → List K → Option (List K))
     (N : Net L K) (n1 n2 : L) : Except Err (TheveninEq K) := do
   let U ← N.openCircuitVoltage solve n1 n2
-  let Z ← N.openCircuitImpedance solve n1 n2
+  let Z ← N.openCircuitImpedance solve n1 n2       -- `Infinite` for an isolated port node: `Z = inf` is no field element
   pure ⟨U, Z⟩
 
 /-- did `open_circuit_impedance` take one of its early returns (Python integer `0`)? -/
@@ -192,25 +222,34 @@ def Net.portIsEarly (N : Net L K) (n1 n2 : L) : Bool :=
 /-- `NortenEquivalentSource.__init__`: `I = U/Z`, `Y = 1/Z`.  With the integer `0` of an early
 return `1/Z` raises `ZeroDivisionError`; a computed zero gives `inf` (`NonFinite`). -/
 def Net.nortonEquivalent (solve : List (List K) → List K → Option (List K))
-    (N : Net L K) (n1 n2 : L) : Except Err (NortonEq K) := do
-  let t ← N.theveninEquivalent solve n1 n2
-  if N.portIsEarly n1 n2 then .error .zeroDivision
-  else if t.Z = 0 then .error (.other "NonFinite")
-  else pure ⟨t.U / t.Z, 1 / t.Z⟩
+    (N : Net L K) (n1 n2 : L) : Except Err (NortonEq K) :=
+  match N.theveninEquivalent solve n1 n2 with
+  | .error (.other "Infinite") => .ok ⟨0, 0⟩         -- `U/inf = 0`, `1/inf = 0`
+  | .error e => .error e
+  | .ok t =>
+    if N.portIsEarly n1 n2 then .error .zeroDivision
+    else if t.Z = 0 then .error (.other "NonFinite")
+    else pure ⟨t.U / t.Z, 1 / t.Z⟩
 
 /-! ### Circuit/impedance.py -/
 
 /-- `np.array([f(transform_circuit(circuit, w0)) for w0 in w])`: the networks are the
 implementation's own `transform_circuit` outputs (modelled by C02/C07); the first
-exception wins -/
-def sweep {α : Type} (f : α → Except Err K) (nets : List α) : Except Err (List K) :=
-  nets.mapM f
+exception wins; `np.inf` (an isolated port node) is a *value* of the array: `none` -/
+def sweep {α : Type} (f : α → Except Err K) : List α → Except Err (List (Option K))
+  | [] => .ok []
+  | n :: ns =>
+    match f n with
+    | .error (.other "Infinite") => (sweep f ns).map (none :: ·)
+    | .error e => .error e
+    | .ok z => (sweep f ns).map (some z :: ·)
 
-/-- `open_circuit_dc_resistance` / `element_dc_resistance`: `sweep(..., w=[0])[0].real` -/
+/-- `open_circuit_dc_resistance` / `element_dc_resistance`: `sweep(..., w=[0])[0].real` (`inf.real = inf`) -/
 def dcResistance {α : Type} (re : K → K) (f : α → Except Err K) (net0 : α) : Except Err K := do
   let l ← sweep f [net0]
   match l with
-  | z :: _ => pure (re z)
+  | some z :: _ => pure (re z)
+  | none :: _ => .error (.other "Infinite")
   | [] => .error .keyError
 
 end
